@@ -234,10 +234,29 @@ def _mono_div(m, d):
 def try_divide(n: "Poly", d: "Poly"):
     """Exact division n / d of multivariate polynomials, or None when d does not divide n.
     Skipped (None) when atoms with reduction rules (i, indicators) occur."""
-    for p in (n, d):
-        for a in p.atoms():
-            if a == I or is_idempotent(a):
+    if any(a == I or is_idempotent(a) for a in d.atoms()):
+        return None
+    if any(a == I or is_idempotent(a) for a in n.atoms()):
+        # R[i, indicators] is a free R-module over the reduced monomials in i / the indicators, and d lies
+        # in R: d divides n iff it divides the coefficient of every such monomial.
+        groups: dict = {}
+        for m, c in n.t.items():
+            red = tuple(ae for ae in m if ae[0] == I or is_idempotent(ae[0]))
+            rest = tuple(ae for ae in m if not (ae[0] == I or is_idempotent(ae[0])))
+            groups.setdefault(red, {})[rest] = c
+        out = {}
+        for red, terms in groups.items():
+            part = Poly()
+            part.t = terms
+            q = try_divide(part, d)
+            if q is None:
                 return None
+            for m, c in q.t.items():
+                s_, mm = mono_mul(m, red)
+                out[mm] = out.get(mm, 0) + s_ * c
+        res = Poly()
+        res.t = {m: c for m, c in out.items() if c != 0}
+        return res
     if len(n.t) * len(d.t) > 60000:
         return None
     lt_d = max(d.t, key=_mono_key)
